@@ -80,4 +80,11 @@ CHECKS = {
         technique="runtime monitoring: differential execution across interpreter configurations (hash seed x formatter) with text/AST equality oracle",
         ref="DESIGN.md section 4 C16",
     ),
+    "C03": dict(
+        level="exploration",
+        text="Generated files with hostile layouts (non-ASCII text and strings containing 'snapshot(' left of the call, several sites per line, nested calls, multi-line arguments with comments, tabs, class methods, long lines; LF/CRLF/CR, BOM, no final newline, form feed; black-clean, format-command) are rewritten by the real code under random approved subsets. A boundary oracle independent of asttokens locates outermost snapshot(...) spans with ast byte offsets in old and new text: bytes outside the spans and spans of sites without an approved pending change must be identical (newline style and BOM included) when no whole-file formatting applies, the snapshot-argument-masked ast.dump must be identical when it does; the result must always parse.",
+        note="UTF-8 files with one consistent newline style. Whether whole-file formatting applies is decided by the harness (format-command or black(original)==original). Plugin-side import insertion is covered by the real-session checks.",
+        technique="runtime monitoring: byte/AST boundary oracle on rewritten files over hostile-layout workloads",
+        ref="DESIGN.md section 4 C03",
+    ),
 }
